@@ -176,6 +176,12 @@ def run(rep, drv):
 					dist = stats.nbinom(r, p)
 					if fam == 'negbin':
 						n, nb = lf.negative_binomial_loss(x, r=r, p=p); n2, nb2 = lf.negative_binomial_second_loss(x, r=r, p=p)
+						# documented: mean and sd are ignored when r and p are both provided
+						junk_m, junk_s = rng.choice([3.0, 23.0, 8.5]), rng.choice([1.0, 8.0])
+						a1 = lf.negative_binomial_loss(x, r=r, p=p, mean=junk_m, sd=junk_s); a2 = lf.negative_binomial_second_loss(x, r=r, p=p, mean=junk_m, sd=junk_s)
+						if not (close(a1[0], n) and close(a1[1], nb) and close(a2[0], n2) and close(a2[1], nb2)):
+							bad.append('negative binomial losses with (r, p) AND (mean=%r, sd=%r) given: %r %r, but with (r, p) alone %r %r - mean/sd are documented as ignored' % (
+								junk_m, junk_s, a1, a2, (n, nb), (n2, nb2)))
 					else:
 						mean = (1 - p) * r / p; sd = math.sqrt((1 - p) * r) / p
 						n, nb = lf.negative_binomial_loss(x, mean=mean, sd=sd); n2, nb2 = lf.negative_binomial_second_loss(x, mean=mean, sd=sd)
